@@ -23,7 +23,7 @@ echo "### baseline with change" >> $LOG
 if CARGO_NET_OFFLINE=true cargo test --workspace --no-fail-fast --offline >> $LOG 2>&1; then BASE=1; else
   # the s3s-fs::it_aws tests race with each other under load (3 are listed as flaky in BASELINE.json; test_list_buckets also
   # fails when a sibling test deletes a bucket while it lists the root): if nothing else failed, retry that binary alone
-  if grep -E "^test .* FAILED" $LOG | grep -v "test_list_objects_v2\|test_single_object\|test_upload_part_copy\|test_list_buckets\|test_multipart" | grep -q FAILED; then BASE=0; else
+  if grep -E "^test [A-Za-z0-9_:]+ \.\.\. FAILED" $LOG | grep -v "test_list_objects_v2\|test_single_object\|test_upload_part_copy\|test_list_buckets\|test_multipart" | grep -q FAILED; then BASE=0; else
     BASE=0
     for i in 1 2 3; do
       if CARGO_NET_OFFLINE=true cargo test -p s3s-fs --offline --test it_aws >> $LOG 2>&1; then BASE=1; break; fi
